@@ -28,7 +28,7 @@ MAX_POINTS = {"quick": 10, "thorough": 16}
 
 
 def gen_case(rng: random.Random, tier: str) -> dict:
-    g = gen.gen_program(rng, max_nodes=6)
+    g = gen.gen_program(rng, max_nodes=8 if tier == "thorough" else 6)
     for nd, _d, _p in iter_nodes(g):
         if nd["kind"] == "graph" and nd.get("map_over"):
             nd["error_handling"] = "raise"
